@@ -91,13 +91,17 @@ def make(rng, cls):
         b = T(None, [idx('zero_extend', k2), g.term(bv(total - k2), d)], bv(total))
         t = app(rng.choice(['=', 'distinct', 'bvult', 'bvule', 'bvugt', 'bvuge', 'bvslt', 'bvsle', 'bvsgt', 'bvsge']), [a, b], BOOL)
     elif cls == 'BvMergeExtend':
+        # nests of depth 2..4; the two outermost operators agree (the filter), deeper ones are arbitrary
         op = rng.choice(['zero_extend', 'sign_extend'])
-        k1, k2 = rng.choice([1, 2, 3]), rng.choice([0, 1, 2])
-        inner = T(None, [idx(op, k2), g.term(bv(w), d)], bv(w + k2))
-        outer = T(None, [idx(op, k1), inner], bv(w + k1 + k2))
-        if rng.random() < 0.3:
-            outer = T(None, [idx(op, 1), outer], bv(w + k1 + k2 + 1))
-        t = app('=', [outer, g.term(outer.sort, 0)], BOOL)
+        depth = rng.choice([2, 2, 3, 3, 4])
+        ops = [op, op] + [rng.choice(['zero_extend', 'sign_extend']) for _ in range(depth - 2)]
+        cur = g.term(bv(w), d)
+        width = w
+        for o in reversed(ops):
+            k = rng.choice([0, 1, 2, 3])
+            width += k
+            cur = T(None, [idx(o, k), cur], bv(width))
+        t = app('=', [cur, g.term(bv(width), 0)], BOOL)
     elif cls == 'BVNormalizeConstants':
         t = app('=', [bvconst(rng, w, notation=rng.choice(['b', 'x'])), g.term(bv(w), d)], BOOL)
     elif cls == 'BVSimplifyConstants':
@@ -195,6 +199,9 @@ def make(rng, cls):
         g.cmds.append(syn(('declare-const', n, s)))
         other = g.term(s, max(d, 1))
         g.vars.append((n, s))
+        if s == INT and rng.random() < 0.4:
+            # the eliminated symbol occurs nested inside the other side of the equality
+            other = app('+', [leaf('1', INT), app('*', [leaf('2', INT), leaf(n, INT)], INT)], INT)
         t = app('and', [app('=', [leaf(n, s), other], BOOL), app('=', [leaf(n, s), g.term(s, 1)], BOOL)], BOOL)
     elif cls == 'FPShortSort':
         e, s = rng.choice([(5, 11), (8, 24), (11, 53), (15, 113), (3, 5)])
